@@ -42,6 +42,51 @@ class Violation(Exception):
         self.found_input = found_input
 
 
+_HELD = {}
+
+
+class locked:
+    """Exclusive advisory lock on a named resource of the shared cache (checks of different
+    properties may run at the same time: they share builds, generated modules and cached
+    observations). Re-entrant within one process."""
+
+    def __init__(self, name):
+        self.name = re.sub(r"[^A-Za-z0-9_.-]", "_", name)
+
+    def __enter__(self):
+        if _HELD.get(self.name, 0) == 0:
+            import fcntl
+            d = os.path.join(CACHE, "locks")
+            os.makedirs(d, exist_ok=True)
+            self.f = open(os.path.join(d, self.name + ".lock"), "w")
+            fcntl.flock(self.f, fcntl.LOCK_EX)
+            _HELD[self.name + "#f"] = self.f
+        _HELD[self.name] = _HELD.get(self.name, 0) + 1
+        return self
+
+    def __exit__(self, *a):
+        _HELD[self.name] -= 1
+        if _HELD[self.name] == 0:
+            import fcntl
+            f = _HELD.pop(self.name + "#f")
+            fcntl.flock(f, fcntl.LOCK_UN)
+            f.close()
+        return False
+
+
+def serialised(name):
+    """Decorator for the observation functions: one process at a time per (name, arguments); the
+    others wait and then find the cached result."""
+    def deco(fn):
+        def wrapper(*a, **kw):
+            with locked("%s-%s" % (name, "-".join(str(x) for x in a[:2]))):
+                return fn(*a, **kw)
+        wrapper.__name__ = fn.__name__
+        wrapper.__doc__ = fn.__doc__
+        return wrapper
+    return deco
+
+
 def log(*a):
     print(*a, file=sys.stderr, flush=True)
 
@@ -123,6 +168,11 @@ def count_obligations(files):
 def prop_recheck(pid, dep_files):
     """Re-compile props/<pid>.v from scratch; return dict with the theorem names, the
     Print Assumptions verdicts and the obligations (theorems+lemmas in dep_files)."""
+    with locked("coq"):
+        return _prop_recheck(pid, dep_files)
+
+
+def _prop_recheck(pid, dep_files):
     t0 = time.time()
     ok, out = coq_build()
     res = {"build_ok": ok, "build_log": out[-3000:] if not ok else ""}
@@ -150,6 +200,11 @@ def prop_recheck(pid, dep_files):
 def coqchk():
     """Independent re-check of the compiled development with coqchk (once per state of the
     Coq sources; about two minutes). Returns {"ok", "axioms", "summary"}."""
+    with locked("coq"):
+        return _coqchk()
+
+
+def _coqchk():
     h = hashlib.sha1()
     for root, _, files in sorted(os.walk(COQ)):
         for fn in sorted(files):
@@ -181,15 +236,15 @@ def coqchk():
 def model_build():
     """(Re)build the extracted OCaml model if any .vo or the driver is newer."""
     exe = os.path.join(MODEL, "cffmodel")
-    newest = 0
-    for root, _, files in os.walk(COQ):
-        for fn in files:
+    with locked("coq"), locked("model"):
+        newest = 0
+        for fn in os.listdir(COQ):        # the models; props/*.vo are re-compiled by every check and are not extracted
             if fn.endswith(".vo"):
-                newest = max(newest, os.path.getmtime(os.path.join(root, fn)))
-    for fn in ("driver.ml", "Extract.v"):
-        newest = max(newest, os.path.getmtime(os.path.join(MODEL, fn)))
-    if not os.path.exists(exe) or os.path.getmtime(exe) < newest:
-        run("sh ./build.sh", cwd=MODEL, timeout=900)
+                newest = max(newest, os.path.getmtime(os.path.join(COQ, fn)))
+        for fn in ("driver.ml", "Extract.v"):
+            newest = max(newest, os.path.getmtime(os.path.join(MODEL, fn)))
+        if not os.path.exists(exe) or os.path.getmtime(exe) < newest:
+            run("sh ./build.sh", cwd=MODEL, timeout=900)
     return exe
 
 
@@ -214,8 +269,10 @@ def go_sum():
     src = os.path.join(REPO, "go.sum")
     dst = os.path.join(HARNESS, "go.sum")
     if not os.path.exists(dst) or open(src).read() != open(dst).read():
-        with open(dst, "w") as f:
+        tmp = "%s.%d" % (dst, os.getpid())
+        with open(tmp, "w") as f:
             f.write(open(src).read())
+        os.replace(tmp, dst)
 
 
 def go_build(cmdname, race=False, tags="verif"):
@@ -223,11 +280,14 @@ def go_build(cmdname, race=False, tags="verif"):
     os.makedirs(BIN, exist_ok=True)
     go_sum()
     out = os.path.join(BIN, cmdname + ("-race" if race else ""))
-    cmd = ["go", "build", "-tags", tags, "-o", out]
+    tmp = "%s.%d" % (out, os.getpid())
+    cmd = ["go", "build", "-tags", tags, "-o", tmp]
     if race:
         cmd.append("-race")
     cmd.append("./cmd/" + cmdname)
-    run(cmd, cwd=HARNESS, env=GOENV, timeout=1200)
+    with locked("gobuild-" + os.path.basename(out)):
+        run(cmd, cwd=HARNESS, env=GOENV, timeout=1200)
+        os.replace(tmp, out)      # a copy another check is executing stays valid
     return out
 
 
@@ -235,7 +295,10 @@ def cff_build():
     """Build the cff binary from /repo's working tree."""
     os.makedirs(BIN, exist_ok=True)
     out = os.path.join(BIN, "cff")
-    run(["go", "build", "-o", out, "./cmd/cff"], cwd=REPO, env=GOENV, timeout=1200)
+    tmp = "%s.%d" % (out, os.getpid())
+    with locked("gobuild-cff"):
+        run(["go", "build", "-o", tmp, "./cmd/cff"], cwd=REPO, env=GOENV, timeout=1200)
+        os.replace(tmp, out)
     return out
 
 
